@@ -86,8 +86,14 @@ def gen_op(rng, n_query, allow_nested=True):
                        'code': rng.choice([1, 2, 3])}
     elif r < 0.36:
         op['fault'] = {'kind': 'diskfull'}
-    elif r < 0.48:
-        op['fault'] = {'kind': 'parent_io', 'at': rng.randint(1, 12), 'errno': rng.choice([28, 5])}
+    elif r < 0.50:
+        # the k-th write event of the parent, k anywhere between the first and the last write event that
+        # the same operation performs when it runs cleanly (so the final output writes are hit too)
+        op['fault'] = {'kind': 'parent_io', 'frac': rng.random(), 'errno': rng.choice([28, 5])}
+    elif r < 0.60 and stage == 'mapping':
+        op['fault'] = {'kind': 'bad_input', 'what': rng.choice(['truncated_query', 'missing_query', 'markers_missing',
+                                                                 'hdf5_dir_missing', 'csv_dir_missing',
+                                                                 'stats_not_hdf5', 'markers_not_json'])}
     n_stale = rng.choice([0, 0, 1, 3, 6])
     op['stale'] = sorted(rng.sample(range(len(STALE)), n_stale))
     op['stale_output'] = rng.random() < 0.12
@@ -130,6 +136,15 @@ def prepare(sb, W):
     for enc in ('csr', 'csc', 'dense'):
         world.write_h5ad(sb.p('in', 'query_%s.h5ad' % enc), W.q_X, W.q_ids, W.q_genes, encoding=enc)
     world.write_h5ad(sb.p('in', 'query_obsm.h5ad'), W.q_X, W.q_ids, W.q_genes, encoding='csr')
+    # deliberately invalid inputs (used by the bad_input failure class of mapping operations)
+    with open(sb.p('in', 'query_csr.h5ad'), 'rb') as f:
+        qb = f.read()
+    with open(sb.p('in', 'query_truncated.h5ad'), 'wb') as f:
+        f.write(qb[:max(1, len(qb) // 2)])
+    with open(sb.p('in', 'stats_not_hdf5.h5'), 'wb') as f:
+        f.write(b'this is not hdf5' * 40)
+    with open(sb.p('in', 'markers_not_json.json'), 'w') as f:
+        f.write('{"None": ["gene_1", ')
     # validation input: floats that are integers, a layer, Ensembl-looking names plus symbols
     vg = ['ENSMUSG%011d' % i for i in range(len(W.q_genes) - 2)] + ['symA', 'unknownB']
     world.write_h5ad(sb.p('in', 'val.h5ad'), W.q_X + 0.0, W.q_ids, vg[:len(W.q_genes)], encoding='csr',
@@ -173,7 +188,7 @@ def op_outputs(op, out_dir):
     return {'valid': os.path.join(out_dir, t + '_valid.h5ad')}
 
 
-def call_op(sb, ctx, op, out_dir, scratch, sched):
+def call_op(sb, ctx, op, out_dir, scratch, sched, clean=False):
     """run the real stage; returns (outcome, sched object)"""
     st = op['stage']
     cfg = op['cfg']
@@ -190,6 +205,22 @@ def call_op(sb, ctx, op, out_dir, scratch, sched):
         if cfg.get('obsm'):
             dcfg['obsm_key'] = 'cdm_' + op['tag']
             dcfg['obsm_clobber'] = True
+        bad = (op.get('fault') or {}) if (op.get('fault') or {}).get('kind') == 'bad_input' and not clean else {}
+        what = bad.get('what')
+        if what == 'truncated_query':
+            dcfg['query_path'] = sb.p('in', 'query_truncated.h5ad')
+        elif what == 'missing_query':
+            dcfg['query_path'] = sb.p('in', 'no_such_query.h5ad')
+        elif what == 'markers_missing':
+            dcfg['query_markers'] = {'serialized_lookup': sb.p('in', 'no_such_markers.json')}
+        elif what == 'markers_not_json':
+            dcfg['query_markers'] = {'serialized_lookup': sb.p('in', 'markers_not_json.json')}
+        elif what == 'stats_not_hdf5':
+            dcfg['precomputed_stats'] = {'path': sb.p('in', 'stats_not_hdf5.h5')}
+        elif what == 'hdf5_dir_missing':
+            dcfg['hdf5_result_path'] = os.path.join(out_dir, 'no_such_dir', op['tag'] + '.h5')
+        elif what == 'csv_dir_missing':
+            dcfg['csv_result_path'] = os.path.join(out_dir, 'no_such_dir', op['tag'] + '.csv')
         return harness.run_call(sched, drivers.run_mapping, dcfg)
     if st == 'stats':
         return harness.run_call(sched, drivers.run_precompute, [ctx['ref']], ctx['tax_dict'], o['stats'], scratch,
@@ -273,7 +304,7 @@ def input_state(sb):
     return st
 
 
-def apply_fault(op, sched):
+def apply_fault(op, sched, n_events=12):
     f = op.get('fault')
     if not f:
         return
@@ -285,7 +316,10 @@ def apply_fault(op, sched):
     elif f['kind'] == 'diskfull':
         KERNEL.statvfs_full = True
     elif f['kind'] == 'parent_io':
-        KERNEL.parent_fault = {'at': KERNEL.parent_write_events + f['at'], 'errno': f['errno']}
+        at = f.get('at')
+        if at is None:
+            at = max(1, int(np.ceil(f['frac'] * max(1, n_events))))
+        KERNEL.parent_fault = {'at': KERNEL.parent_write_events + at, 'errno': f['errno']}
         KERNEL.parent_fault_fired = None
 
 
@@ -318,10 +352,11 @@ def run(scn, sb):
                 os.makedirs(os.path.join(clean_root, 'out'))
                 os.makedirs(os.path.join(clean_root, 'scratch'))
                 st_before = sb.listing('systmp')
+                w0 = KERNEL.parent_write_events
                 o, _ = call_op(sb, ctx, op, os.path.join(clean_root, 'out'), os.path.join(clean_root, 'scratch'),
-                               {'policy': 'fifo', 'seed': 0})
+                               {'policy': 'fifo', 'seed': 0}, clean=True)
                 clean_cache[key] = (o[0], op_digest(op, os.path.join(clean_root, 'out'), o),
-                                    o[1] if o[0] == 'raised' else None)
+                                    o[1] if o[0] == 'raised' else None, KERNEL.parent_write_events - w0)
                 shutil.rmtree(clean_root, ignore_errors=True)
                 # a clean-room run must not pollute the shared system temp dir of the history
                 for rel in set(sb.listing('systmp')) - set(st_before):
@@ -365,7 +400,7 @@ def run(scn, sb):
                     finally:
                         KERNEL.statvfs_full, KERNEL.parent_fault = saved
                 KERNEL.nested_cb = cb
-            apply_fault(op, sched)
+            apply_fault(op, sched, n_events=cleans[0][3])
             try:
                 out, s = call_op(sb, ctx, op, out_dir, scratch, sched)
             finally:
@@ -387,6 +422,10 @@ def run(scn, sb):
                     res['faults']['disk_full_probe_answered'] = res['faults'].get('disk_full_probe_answered', 0) + 1
                 elif f['kind'] == 'parent_io' and fired_parent:
                     res['faults']['parent_io_error'] = res['faults'].get('parent_io_error', 0) + 1
+                    late = 'late' if f.get('frac', 0) > 0.7 else 'early'
+                    res['faults']['parent_io_error_' + late] = res['faults'].get('parent_io_error_' + late, 0) + 1
+                elif f['kind'] == 'bad_input' and out[0] == 'raised':
+                    res['faults']['invalid_input:' + f['what']] = res['faults'].get('invalid_input:' + f['what'], 0) + 1
             if planted:
                 res['faults']['stale_files_planted'] = res['faults'].get('stale_files_planted', 0) + len(planted)
             if op.get('stale_output'):
@@ -470,7 +509,7 @@ def run(scn, sb):
             for o2, cl, (oc, sc) in zip(ops_here, cleans,
                                         [(out, s)] + ([(nested_result['out'], nested_result['sched'])]
                                                       if nested_result else [])):
-                faulted = bool(o2.get('fault')) and o2 is op
+                faulted = (bool(o2.get('fault')) and o2 is op) or (o2.get('fault') or {}).get('kind') == 'bad_input'
                 if oc[0] == 'ok':
                     dg = op_digest(o2, out_dir, oc)
                     if cl[0] == 'ok' and dg != cl[1]:
